@@ -3,7 +3,6 @@ package props
 import (
 	"fmt"
 	"go/ast"
-	"go/token"
 	"go/types"
 	"sort"
 	"strings"
@@ -186,6 +185,9 @@ func checkC14(c *Ctx) {
 	pk := r.Pkg
 
 	checkDiffsTo(c, r)
+
+	checkSideMixing(c, r)
+	checkSections(c, "C14.R4.report-sections", pk)
 
 	c.Rule("C14.R1.orientation", "directed code ⇒ directed trigger of matching orientation; no opposite-orientation trigger; direction-less code ⇒ no one-sided selection", 55)
 	c.Rule("C14.R1.sense", "Widened/Narrowed agree with the attribute's sense (upper bound ↑ = widened, lower bound ↑ = narrowed, exclusive removed = widened, string→non-string = narrowed, number wideness ↑ = widened)", 12)
@@ -474,20 +476,21 @@ func checkDiffsTo(c *Ctx, r *goan.Rel) {
 				c.Check(i == di, rule, "diff."+recv+".DiffsTo › result named "+ro.Name(), c.posOf(pk, ro.Pos()), "holds the only-in-receiver items", "result named "+ro.Name()+" holds the items found only in the argument")
 			}
 		}
-		// early return when the receiver collection is nil: the argument must be returned in the added slot
+		// every explicit 3-result return: receiver-derived values only in the deleted slot,
+		// argument-derived values only in the added slot
 		ast.Inspect(fd.Body, func(n ast.Node) bool {
-			ifs, ok := n.(*ast.IfStmt)
-			if !ok {
+			ret, ok := n.(*ast.ReturnStmt)
+			if !ok || len(ret.Results) != 3 {
 				return true
 			}
-			be, ok := ifs.Cond.(*ast.BinaryExpr)
-			if !ok || be.Op != token.EQL || !goan.IsNil(info, be.Y) || !goan.Mentions(info, be.X, recvObj) {
-				return true
-			}
-			for _, st := range ifs.Body.List {
-				if ret, ok := st.(*ast.ReturnStmt); ok && len(ret.Results) == 3 {
-					c.Check(identIs(info, ret.Results[ai], argObj), rule, "diff."+recv+".DiffsTo › nil receiver early return", c.posOf(pk, ret.Pos()),
-						"everything in the argument is 'added'", "with a nil receiver the argument is not returned as the 'added' result")
+			for i, e := range ret.Results {
+				if goan.Mentions(info, e, recvObj) && !goan.Mentions(info, e, argObj) {
+					c.Check(i == di, rule, fmt.Sprintf("diff.%s.DiffsTo › early return: receiver items in result %d", recv, i), c.posOf(pk, ret.Pos()),
+						"receiver-only items returned as 'deleted'", fmt.Sprintf("an early return puts the receiver's items into result %d, but 'only in receiver' is result %d: removed items would be reported as added", i, di))
+				}
+				if goan.Mentions(info, e, argObj) && !goan.Mentions(info, e, recvObj) {
+					c.Check(i == ai, rule, fmt.Sprintf("diff.%s.DiffsTo › early return: argument items in result %d", recv, i), c.posOf(pk, ret.Pos()),
+						"argument-only items returned as 'added'", fmt.Sprintf("an early return puts the argument's items into result %d, but 'only in argument' is result %d", i, ai))
 				}
 			}
 			return true
@@ -496,4 +499,83 @@ func checkDiffsTo(c *Ctx, r *goan.Rel) {
 	// re-classify sites with the derived orientation
 	r.Reclassify()
 	// every caller binds the results positionally; orientation by index is what Classify uses
+}
+
+
+// checkSideMixing: a helper that every other call site feeds from a single spec must not be
+// fed values of both specs at one call site (deviance rule, exact under the side model).
+func checkSideMixing(c *Ctx, r *goan.Rel) {
+	rule := "C14.R0.side-mixing"
+	c.Rule(rule, "a same-package helper whose other call sites pass values of one spec only is not called with values of both specs", 8)
+	pk := r.Pkg
+	info := pk.TypesInfo
+	type callInfo struct {
+		fn    string
+		call  *ast.CallExpr
+		sides map[goan.Side]bool
+	}
+	byCallee := map[*types.Func][]callInfo{}
+	for _, fd := range load.AllFuncs(pk) {
+		name := load.FuncName(fd)
+		ast.Inspect(fd.Body, func(n ast.Node) bool {
+			call, ok := n.(*ast.CallExpr)
+			if !ok {
+				return true
+			}
+			fn := goan.Callee(info, call)
+			if fn == nil || fn.Pkg() != pk.Types {
+				return true
+			}
+			ci := callInfo{name, call, map[goan.Side]bool{}}
+			for _, a := range call.Args {
+				// names and keys (basic-typed values) are shared between the two specs once a
+				// lookup succeeded; only structured values identify a spec
+				if t := info.TypeOf(a); t != nil {
+					if _, basic := t.Underlying().(*types.Basic); basic {
+						continue
+					}
+				}
+				if s := r.SideOf(a); s == goan.S1 || s == goan.S2 {
+					ci.sides[s] = true
+				}
+			}
+			byCallee[fn] = append(byCallee[fn], ci)
+			return true
+		})
+	}
+	var fns []*types.Func
+	for fn := range byCallee {
+		fns = append(fns, fn)
+	}
+	sort.Slice(fns, func(i, j int) bool { return fns[i].Name() < fns[j].Name() })
+	for _, fn := range fns {
+		cis := byCallee[fn]
+		pure, mixed := 0, 0
+		for _, ci := range cis {
+			switch len(ci.sides) {
+			case 1:
+				pure++
+			case 2:
+				mixed++
+			}
+		}
+		if pure < 2 || mixed > 1 {
+			continue // decided only for helpers fed one-sidedly at ≥ 2 call sites with at most one deviating site
+		}
+		for _, ci := range cis {
+			if len(ci.sides) == 0 {
+				continue
+			}
+			c.Check(len(ci.sides) == 1, rule, fmt.Sprintf("diff.%s › call %s(%s)", ci.fn, fn.Name(), argStr(ci.call)), c.posOf(pk, ci.call.Pos()),
+				"arguments come from one spec", fmt.Sprintf("%s is fed from one spec at its %d other call sites, but here its arguments mix values of spec 1 and spec 2: the result no longer describes either spec", fn.Name(), pure))
+		}
+	}
+}
+
+func argStr(call *ast.CallExpr) string {
+	var as []string
+	for _, a := range call.Args {
+		as = append(as, goan.ExprString(a))
+	}
+	return strings.Join(as, ", ")
 }
